@@ -28,11 +28,12 @@ func init() {
 		ruleR01b(c)
 		ruleR01c(c, "R01c")
 		ruleR01de(c)
+		ruleR01f(c)
 	})
 	register("C08", propMeta{
 		Level: "other",
 		Explanation: "Semantic equivalence of compiler and source is translation validation and is not decided. Decided clauses: R08a a compiled program shared through the cache is never mutated: no value derived from Program.{Instructions,Resources,Sources,NeededBalances} (or Machine.UnresolvedResources / Machine.Program) is the target of an element store, map update, append, copy, delete or sort outside package compiler, and shared *MonetaryInt values are immutable (R01c); " +
-			"R08b the cache key is a digest of the whole script text and what is returned for a key is what was stored under it; R08c opcode tables agree: OP_* constants = cases of Machine.tick = cases of OpcodeName, every emitted opcode is one of them, and the operand width written by the compiler (Address.ToBytes) equals the width OP_APUSH consumes; R08d the static type discipline is applied: the type returned by VisitExpr/VisitVariable/VisitLit is compared or propagated at every call site (frozen exceptions: polymorphic consumers, and VisitMonetary which checks the same expression first).",
+			"R08b the cache key is a digest of the whole script text and what is returned for a key is what was stored under it; R08c opcode tables agree: OP_* constants = cases of Machine.tick = cases of OpcodeName, every emitted opcode is one of them, and the operand width written by the compiler (Address.ToBytes) equals the width OP_APUSH consumes; R08d the static type discipline is applied: the type returned by VisitExpr/VisitVariable/VisitLit is compared or propagated at every call site (frozen exceptions: polymorphic consumers, and VisitMonetary which checks the same expression first); R08e the address VisitExpr returns for push=false is used as the value only for types that have no compound form (the compound types are read from VisitExpr's own returns), otherwise only for the asset (OP_ASSET / needed balances).",
 		NotDecided:  "that the emitted instruction sequence implements each statement; resource ordering; exactness of arithmetic.",
 		Trusted:     []string{"gcache returns the value stored under the key", "sha256"},
 	}, func(c *Ctx) {
@@ -41,11 +42,12 @@ func init() {
 		ruleR08b(c)
 		ruleR08c(c)
 		ruleR08d(c, "R08d")
+		ruleR08e(c, "R08e")
 	})
 	register("C12", propMeta{
 		Level: "other",
 		Explanation: "Sound panic-freedom is out of reach (indexing, assertions whose safety is a compiler↔VM invariant). Decided clauses tied to the mechanisms the property names: R12a every write into the per-account balance map goes through a checked lookup (comma-ok / owner that creates the entry), frozen exception repay; R12b the registry of balance variables awaiting resolution is keyed by the resource index (injective); " +
-			"R12c the VM terminates: every store to Machine.P adds a positive constant, every path of tick that reports `not finished` advanced P, Execute leaves its loop when tick reports finished, and every iteration of ResolveResources appends exactly one resource or returns; R12d nothing is left behind: no store to package-level variables in internal/machine/** and internal/engine/command outside initialisers, and shared programs are not mutated (R08a); R12e compile-time type checks are applied (R08d). The explicit panics reachable from compile/run are listed in the evidence (informational).",
+			"R12c the VM terminates: every store to Machine.P adds a positive constant, every path of tick that reports `not finished` advanced P, Execute leaves its loop when tick reports finished, and every iteration of ResolveResources appends exactly one resource or returns; R12d nothing is left behind: no store to package-level variables in internal/machine/** and internal/engine/command outside initialisers, shared programs are not mutated (R08a) and shared amounts (machine.Zero, constants of a cached program, stored balances) are never modified in place (R12f: mutating big.Int methods only on freshly allocated receivers); R12e compile-time type checks are applied (R08d). The explicit panics reachable from compile/run are listed in the evidence (informational).",
 		NotDecided:  "the ANTLR parser; index/slice bounds; nil dereferences other than the balance-map ones; JSON variable parsing.",
 		Trusted:     []string{"go/ssa"},
 	}, func(c *Ctx) {
@@ -54,6 +56,7 @@ func init() {
 		ruleR12c(c)
 		ruleR12d(c)
 		ruleR08a(c)
+		ruleR01c(c, "R12f")
 		ruleR08d(c, "R12e")
 		listPanics(c)
 	})
@@ -1129,6 +1132,11 @@ func ruleR12a(c *Ctx) {
 				n++
 				name := origName(fn)
 				key := fnName(fn) + ":balance-entry-exists-before-write"
+				if !checked {
+					// an element of the same per-account map was found by a comma-ok lookup on every path
+					// to the write (`v, ok := m.Balances[a][k]` with ok true): the inner map is not nil
+					checked = innerEntryFound(c, fn, mu, outer, balF)
+				}
 				switch {
 				case checked:
 					c.ok(rule, key, mu.Pos(), "the per-account map comes from a comma-ok lookup and is written only on its ok edge")
@@ -1143,6 +1151,36 @@ func ruleR12a(c *Ctx) {
 	if n < 4 {
 		c.undecided(rule, "floor:balance-writes", token.NoPos, fmt.Sprintf("only %d writes into per-account balance maps found", n))
 	}
+}
+
+// innerEntryFound: the write `m.Balances[a][k] = v` is reached only through the ok edge of a comma-ok lookup
+// `m.Balances[a][k']` on the same account value.
+func innerEntryFound(c *Ctx, fn *ssa.Function, mu *ssa.MapUpdate, outer *ssa.Lookup, balF *types.Var) bool {
+	for _, b := range fn.Blocks {
+		for _, ins := range b.Instrs {
+			lk, ok := ins.(*ssa.Lookup)
+			if !ok || !lk.CommaOk {
+				continue
+			}
+			var in *ssa.Lookup
+			switch x := lk.X.(type) {
+			case *ssa.Lookup:
+				in = x
+			case *ssa.Extract:
+				in, _ = x.Tuple.(*ssa.Lookup)
+			}
+			if in == nil || descr(in.Index, 0) != descr(outer.Index, 0) {
+				continue
+			}
+			if _, isBal := fieldRead(in.X, balF); !isBal {
+				continue
+			}
+			if guardedByExtractTrue(c, fn, mu, lk) {
+				return true
+			}
+		}
+	}
+	return false
 }
 
 func guardedByExtractTrue(c *Ctx, fn *ssa.Function, target ssa.Instruction, lk *ssa.Lookup) bool {
